@@ -133,6 +133,19 @@ def execute(case):
                     finish(i, x)
                     if x:
                         raise x
+            if cb["async"] and (case.get("seed", 0) + i) % 3 == 2:
+                # the same callback as a plain function that returns an awaitable which is not a coroutine ("the callback may
+                # return an awaitable"): it has run only when that awaitable has been awaited
+                class Handle:
+                    def __init__(self, coro):
+                        self._coro = coro
+
+                    def __await__(self):
+                        return self._coro.__await__()
+
+                def starter(*args, _f=f):
+                    return Handle(_f(*args))
+                return starter
             if (case.get("seed", 0) + i) % 3 == 1:
                 # the same callback as an instance with __call__ (no __name__ / __qualname__ of its own)
                 class CallableObject:
